@@ -5,6 +5,9 @@ import RimeModel.Session.WellFormed
 import RimeModel.Session.ComposeOK
 import RimeModel.Session.GeoProc
 import RimeModel.Session.GeoLoop
+import RimeModel.Session.PunctComposeGeo
+import RimeModel.Session.PunctComposeLoop
+import RimeModel.Session.Shape
 /-!
 C01 — no API call sequence crashes, hangs or corrupts memory.  Property theorems only.  CLAIMED PARTIAL:
 the theorems cover (1) the guard table of the API entry points and the get/free ownership pairs, both
@@ -145,6 +148,68 @@ theorem geometry_reachable_concrete (env : Env) (cfg : SegCfg) (henv : env.recom
     (htr : TranslateGeo cfg) (hnp : NoPrevMatch env) (c0 : Ctx) (h0 : c0.comp.segs = []) (ops : List Op) :
     GeoInv (runOps env c0 ops) :=
   geometry_reachable env (by rw [henv]; exact compose_geo_spec cfg htr) hnp c0 h0 ops
+
+/-- **the geometric invariant for schemas with the punctuation components.**  A schema is the pair of environments of
+the `full_shape` option (`runOpsS`, Session/Shape.lean); `ComposeGeoSpec` is discharged for the Compose with
+abc_segmentor, punct_segmentor, fallback_segmentor, punct_translator + oracle + filter (`composeP`) for every
+punctuation mapping, every oracle satisfying `TranslateGeo` and every filter that only removes or reorders candidates
+(`FilterSub`); the punctuator processor (alternating, confirming, committing, pairing) keeps the invariant.  In every
+state reachable from a session without segments the segments tile a prefix of the composition's input. -/
+theorem geometry_reachable_punct (envOf : Bool → Env) (cfg : Bool → PSegCfg)
+    (henv : ∀ b, (envOf b).recompose = composeP (cfg b)) (htr : ∀ b, TranslateGeo (cfg b).toSegCfg)
+    (hf : ∀ b, FilterSub (cfg b).filter) (hnp : ∀ b, NoPrevMatch (envOf b)) (c0 : Ctx) (h0 : c0.comp.segs = [])
+    (ops : List Op) : GeoInv (runOpsS envOf c0 ops) :=
+  runOpsS_geo (fun b => by rw [henv b]; exact composeP_geo_spec (cfg b) (htr b) (hf b)) hnp ops (geoInv_of_no_segs h0)
+
+/-- non-vacuity: `a,/a` with `,` and `/` punctuation keys is four contiguous segments (abc, punct, punct, abc) -/
+example :
+    let m : List (UInt8 × PunctDef) := [(44, .unique [0xef, 0xbc, 0x8c]), (47, .alt [[0xe3, 0x80, 0x81], [47]])]
+    let cfg : PSegCfg := { alphabet := [97], initials := [97], finals := [], delimiters := [],
+                           translate := fun _ g => [Cand.mk [65] [] [] g.start g.stop true], punct := m }
+    let env : Env := { recompose := composeP cfg }
+    (runOpsS (fun _ => env) {} [.setInput [97, 44, 47, 97]]).comp.segs.map (fun g => (g.start, g.stop, g.tags.punct)) =
+      [(0, 1, false), (1, 2, true), (2, 3, true), (3, 4, false)] := by
+  decide
+
+/-- **Punctuator::AlternatePunct's `ctx->input().substr(segment.start, segment.end - segment.start)` is in range**:
+in every reachable state of a schema with the punctuation components, the last segment starts within the RAW input
+(`start ≤ end ≤ |composition input| ≤ |input|`: the geometric invariant together with the C02 invariant) -/
+theorem punct_alternate_substr_in_range (envOf : Bool → Env) (cfg : Bool → PSegCfg)
+    (henv : ∀ b, (envOf b).recompose = composeP (cfg b)) (htr : ∀ b, TranslateGeo (cfg b).toSegCfg)
+    (hf : ∀ b, FilterSub (cfg b).filter) (hnp : ∀ b, NoPrevMatch (envOf b)) (c0 : Ctx)
+    (h0 : c0.input = [] ∧ c0.caret = 0 ∧ c0.comp.segs = [] ∧ c0.comp.input = []) (ops : List Op) (g : Seg)
+    (hlast : (runOpsS envOf c0 ops).comp.segs.getLast? = some g) :
+    g.start ≤ (runOpsS envOf c0 ops).input.length ∧ g.stop ≤ (runOpsS envOf c0 ops).input.length := by
+  have hgeo := geometry_reachable_punct envOf cfg henv htr hf hnp c0 h0.2.2.1 ops
+  have hinv : Inv (runOpsS envOf c0 ops) :=
+    runOpsS_inv (fun b => by rw [henv b]; exact composeP_spec (cfg b)) ops
+      ⟨⟨by rw [h0.1, h0.2.1]; exact Nat.le_refl _, by rw [h0.2.2.1]; exact SegsOK.nil⟩,
+        by rw [h0.2.2.2, h0.1]; exact Nat.le_refl _⟩
+  generalize runOpsS envOf c0 ops = c at hgeo hinv hlast
+  have hmem : g ∈ c.comp.segs := List.mem_of_getLast? hlast
+  have h1 := (hgeo.geo.seg hmem).1
+  have h2 := hgeo.bounded g hmem
+  have h3 := hinv.cinput_le
+  omega
+
+/-- **PunctSegmentor::Proceed's `input[k]` is in range**: whenever the segmentation loop calls the segmentor
+(`LoopInv`: contiguous segments within the composition's input — what `Compose` maintains from any reachable state) and
+the current start is not the end of the input, it is a valid index -/
+theorem punct_segmentor_index_in_range (c : Comp) (h : LoopInv c) (hne : c.currentStart ≠ c.input.length) :
+    c.currentStart < c.input.length := by
+  have h1 := currentStart_le_end h.1
+  have h2 := h.2
+  omega
+
+/-- **the segmentation loop with the punct segmentor: the model's fuel is never what stops it.**  For every contiguous
+old composition (every state in which the engine recomposes), raw input and caret, the loop of `composeP` run with the
+fuel `|input| + 2` the model passes gives the same composition as with any larger fuel: a round that continues moves the
+current start strictly to the right (abc, punct and fallback segmentors never leave the end left of the round's start). -/
+theorem punct_segmentation_loop_fuel_adequate (cfg : PSegCfg) (input : Bytes) (caret : Nat) (c : Comp) (h : GeoOK c.segs)
+    (k : Nat) :
+    let c2 := resetStage input caret c
+    segLoopG (segStepP cfg) caret (c2.input.length + 2 + k) c2 = segLoopG (segStepP cfg) caret (c2.input.length + 2) c2 :=
+  composeP_fuel_adequate cfg input caret h k
 
 /-- **every `input_.substr(seg.start, seg.end - seg.start)` is in range** (Composition::GetCommitText /
 GetPreedit / GetScriptText / GetDebugText, ConcreteEngine::TranslateSegments).  In every reachable state, for
